@@ -4,7 +4,7 @@
 cd /verif
 out=/verif/seeded/MATRIX.txt
 tmp=$(mktemp -d)
-ls -d seeded/*/ | while read d; do echo "$(basename $d)"; done | xargs -P 6 -I{} bash -c '
+ls -d seeded/*/ | while read d; do echo "$(basename $d)"; done | xargs -P 8 -I{} bash -c '
   n={}; r=$(tools/try_variant.sh seeded/$n/patch.diff all 2>&1)
   props=$(echo "$r" | grep "^VIOLATION" | sed "s/VIOLATION property=\([A-Z0-9]*\).*/\1/" | sort -u | tr "\n" " ")
   rules=$(echo "$r" | grep "^  violated:\|^  undecided:" | sed "s/^  [a-z]*: \([A-Za-z0-9.\/-]*\) .*/\1/" | sort -u | tr "\n" " ")
